@@ -239,6 +239,24 @@ def check (c):
         worst = max (worst, d / 1e-9)
         if d > 1e-9:
             bad ('far-medium', 'far-medium', 'form %s: a further medium beyond every reflection point (boundary %.4g, farthest reflection %.4g) changes the pattern by %.3g' % (name, far2, far, d), measured = d, allowed = 1e-9)
+    # ---- (d2) the width of the last medium is documented as not used (the last medium extends to infinity): a
+    # fourth value on it, placed so that reflection points fall beyond it, leaves the pattern unchanged
+    for name, base_media, bnd, rad in (forms [0], forms [1], forms [2], forms [3]):
+        far    = max_reflection (m1, bnd or g ['boundary'])
+        last_c = max ([mm [3] for mm in base_media if len (mm) > 3] + [0.0])
+        if not (far > last_c * 1.05 + 1e-6):
+            continue
+        media = copy.deepcopy (base_media)
+        wl    = last_c + (far - last_c) * (0.15 + 0.5 * ((c.get ('i', 0) * 7 + len (name)) % 10) / 10.0)
+        media [-1] = media [-1][:3] + [wl]
+        ml, _, _ = solved (spec, media, bnd or g ['boundary'], rad)
+        pl = pattern (ml)
+        pb = pats [name][1]
+        mon ['last-medium-width'] = mon.get ('last-medium-width', 0) + 1
+        d = np.abs (10 ** (pl [..., 2] / 10) - 10 ** (pb [..., 2] / 10)).max () / (10 ** (pb [..., 2] / 10)).max ()
+        worst = max (worst, d / 1e-9)
+        if d > 1e-9:
+            bad ('last-medium-width', 'last-medium-width-used', 'form %s: a width of %.4g given for the last medium (reflection points reach %.4g) changes the pattern by %.3g of the maximum' % (name, wl, far, d), measured = d, allowed = 1e-9)
     # ---- (e) a direction named with a negative zenith angle is the direction (|theta|, phi + 180): same gain,
     # whichever medium its reflection points fall on
     MM = common.repo ()
